@@ -159,7 +159,7 @@ class InputDataStorage:
                     current_sample_name = self.experiment_prefix + str(current_index)
                 if current_sample_name in experiment_names:
                     new_sample_name = self.experiment_prefix + str(current_index)
-                    if current_sample_name == new_sample_name:
+                    if new_sample_name in experiment_names:
                         logger.critical("Change experiment name %s and rerun IsoQuant" % current_sample_name)
                         exit(-1)
                     logger.warning("Duplicate folder prefix %s, will change to %s" %
@@ -225,7 +225,7 @@ class InputDataStorage:
                 current_sample_name = sample['name']
             if current_sample_name in experiment_names:
                     new_sample_name = self.experiment_prefix + str(current_index)
-                    if current_sample_name == new_sample_name:
+                    if new_sample_name in experiment_names:
                         logger.critical("Change experiment name %s and rerun IsoQuant" % current_sample_name)
                         exit(-1)
                     logger.warning("Duplicate folder prefix %s, will change to %s" %
